@@ -573,6 +573,12 @@ func (v *Verifier) LoadSpecFile(path string, pkgPath string, lib bool) error {
 				v.notes[fmt.Sprintf("duplicate lib spec for %s in %s ignored (first definition in %s is used)", f.Key, path, prev.File)] = true
 				continue
 			}
+			if !lib && prev.Lib && pkgPath != "" && !strings.Contains(f.Key, pkgPath+".") {
+				// a contract file restates the assumed contract of a DEPENDENCY (a function of another package, given by its
+				// full key) that a lib spec of this configuration already specifies: like for lib specs the first one wins
+				v.notes[fmt.Sprintf("dependency spec for %s in %s ignored (the lib spec in %s is used)", f.Key, path, prev.File)] = true
+				continue
+			}
 			return fmt.Errorf("%s:%d: duplicate spec for %s", path, f.Line, f.Key)
 		}
 		v.specs[f.Key] = f
